@@ -1,11 +1,11 @@
 SPECIFICATION Spec
-CONSTANTS MaxLen = 4
-  Pool <- Pool3U
-  Starts <- StartsAll
+CONSTANTS MaxLen = 3
+  Pool <- PoolK6
+  Starts <- StartsK6
   Xs = {2}
-  Nested = TRUE
-  Ys <- NoData
-  Extra <- NoElems
+  Nested = FALSE
+  Ys <- DataK6
+  Extra <- ExtraK6
   Variant = "doc"
   CopyVarContext = TRUE
   ExtendByCompose = TRUE
@@ -19,4 +19,5 @@ INVARIANT CarriesAttributes
 INVARIANT FrameVariableOnly
 INVARIANT VarUnchanged
 INVARIANT Repeatable
+INVARIANT Emitted
 CHECK_DEADLOCK FALSE
